@@ -58,6 +58,9 @@ CHECKS["C13"] = dict(category="model_checking", technique="TLA+ Simple.NormOk (e
 CHECKS["C20"] = dict(category="exploration", technique="tool runs recorded as traces and validated by TLC against the Trace_Tools action specification (each tool = one action over Writer/Reader state)",
    text="The real workspace binaries are built from /repo and run: XYZ->E57->XYZ over files covering all 8-bit colours, f32 extremes/subnormals/-0, short/empty/extra-column lines and several data packets (coordinates compared as f32 bit patterns, -0 = +0); check-crc on intact files and files with one altered bit per page (exit status); extract-xml vs raw_xml; unpack vs xml(), blob(), pointcloud_raw() (CSV cells parsed back). TLC validates the relations stated in the property.",
    note="The tools have no state of their own; the specification is a thin relation per tool. Trusts TLC, the orchestrator's parsing of tool outputs, and lib-dump (what the library returns).", ref="6 C20")
+CHECKS["C19"] = dict(category="model_checking", technique="TLA+ acceptance relation (E57Spec.ProtoVerdict) decides which copies must succeed; TLC trace validation of copy / copy-of-copy / double-write executions",
+   text="Bundled test data, writer files over the C01/C04/C06 generators (incl. full 64-bit range, min = max, extension records) and files of the independent encoder are copied through the public API, the copy is copied again and written twice. TLC requires: the copy succeeds whenever every reported prototype obeys the documented rules (reader output is a subset of writer input), masked reports, points and image data of the copy equal the source's, the second copy equals the first in full, two writes are byte-identical.",
+   note="Section/blob offsets, the library version string and the writer-derived bounds are masked in the source-vs-copy comparison (the API cannot set them). Trusts TLC, the acceptance relation, harness equality flags for bulk data.", ref="6 C19")
 NOT_APPLICABLE = {}
 
 def main():
